@@ -159,6 +159,7 @@ func checkC16(c *ev.Ctx) {
 		for e := 0; e < 2; e++ {
 			withEnd := e == 1
 			id := fmt.Sprintf("seq:%s:%d", strings.Join(seq, ","), e)
+			noteCase(id)
 			if !want(c, id) {
 				continue
 			}
@@ -228,6 +229,7 @@ func checkC16(c *ev.Ctx) {
 		cb := byte(i & 0xff)
 		second := i >= 256
 		id := fmt.Sprintf("ctl:%02x:%v", cb, second)
+		noteCase(id)
 		if !want(c, id) {
 			return
 		}
@@ -330,6 +332,7 @@ func checkC16(c *ev.Ctx) {
 	// writer side
 	par(nwriter, func(i int) {
 		id := fmt.Sprintf("w%d", i)
+		noteCase(id)
 		if !want(c, id) {
 			return
 		}
